@@ -589,6 +589,15 @@ ssize_t __wrap_coap_socket_send(coap_socket_t *sock, coap_session_t *session, co
     if (src.is_mcast() || src.is_any()) { Addr l = v->local; if (l.is_any()) l = l.fam == 6 ? Addr::v6("2001:db8::1", l.port) : Addr::v4(10, 0, 0, 1, l.port); src = l; }
     src.port = v->local.port;
   }
+  // a send that fails (the kernel has no buffer space at this moment): nothing goes on the wire, the caller sees -1 / ENOBUFS.  The attempt is kept in
+  // the trace as a transmission by the library that never left the host (EV_SEND with the note below, no delivery)
+  if (W->send_fails && W->send_fails(W->lib_sends++)) {
+    TraceEv e;
+    e.t = W->now; e.kind = EV_SEND; e.src = src; e.dst = dst; e.data.assign(data, data + datalen); e.from_lib = true; e.note = "socket send failed (ENOBUFS)";
+    W->trace.push_back(e);
+    errno = ENOBUFS;
+    return -1;
+  }
   W->lib_send(v, src, dst, data, datalen);
   return (ssize_t)datalen;
 }
